@@ -130,21 +130,6 @@ Section INST9.
          | None => misnamed i
          end.
 
-  (* the loop body of repair() raises something other than KeyError for this directory: cache miss and
-     the file is missing or undecodable (JobsCorruptedError) or holds null (ValueError from open_job) *)
-  Definition unrecoverable (i : str) : bool :=
-    match alookup i cachefile9 with
-    | Some _ => false
-    | None => match decoded (c9_fs c) i with
-              | Some JNull => true                    (* open_job(None): ValueError escapes as well *)
-              | Some _ => false
-              | None => isdir (c9_fs c) (jdir i)
-              end
-    end.
-
-  Fixpoint after_first {A} (p : A -> bool) (l : list A) : list A :=
-    match l with [] => [] | x :: r => if p x then r else after_first p r end.
-
   Definition non_sp_files (f : fs) : list (path * list N) :=
     flat_map (fun e => match e with
                        | (p, File x) =>
@@ -174,60 +159,23 @@ Section INST9.
   Definition sp_ok (p : str * result json) : bool :=
     match snd p with Ok sp => str_eqb (cid9 sp) (fst p) | Err _ => true end.
 
-  Definition null_id : str := cid9 JNull.
-  (* the class of known finding 2: a directory named md5("null") whose file is missing or holds null *)
-  Definition null_job (f : fs) (i : str) : bool :=
-    str_eqb i null_id &&
-    match get f (spf i) with
-    | None => true
-    | Some (File x) => match lb9 (c_bytes x) with DVal JNull => true | _ => false end
-    | _ => false
-    end.
-
-  (* atoms: (holds, tag of the known finding that excuses a failure, 0 = none) *)
-  Definition atoms : list (bool * N) :=
-    [(ck_same (c9_check c) (expected_check (c9_fs c) (c9_listing c)), 0%N)]
-    ++ map (fun p => (sp_ok p,
-                      if null_job (c9_fs c) (fst p) then 2%N else 0%N))
-           (c9_open c)
+  (* the clauses of the oracle *)
+  Definition atoms : list bool :=
+    [ck_same (c9_check c) (expected_check (c9_fs c) (c9_listing c))]
+    ++ map sp_ok (c9_open c)
     ++ flat_map (fun i => match promised i with
-                          | Some t => [(intact (c9_after c) t,
-                                        if str_mem i (after_first unrecoverable (c9_listing c)) then 1%N else 0%N)]
+                          | Some t => [intact (c9_after c) t]
                           | None => []
                           end) (c9_listing c)
-    ++ [(frame_ok, 0%N)]
-    ++ [(ck_same (c9_check_after c) (expected_check (c9_after c) (job_dirs (c9_after c) WSP)), 0%N)]
-    ++ map (fun p => (sp_ok p,
-                      if null_job (c9_after c) (fst p) then 2%N
-                      else match alookup (fst p) cachefile9, decoded (c9_fs c) (fst p) with
-                           | None, Some v => if negb (str_eqb (cid9 v) (fst p)) then 3%N else 0%N
-                           | _, _ => 0%N
-                           end))
-           (c9_open_after c).
+    ++ [frame_ok]
+    ++ [ck_same (c9_check_after c) (expected_check (c9_after c) (job_dirs (c9_after c) WSP))]
+    ++ map sp_ok (c9_open_after c).
 
-  Definition holds9 : bool := forallb fst atoms.
-
-  Definition known_tag9 : N :=
-    let failing := filter (fun a => negb (fst a)) atoms in
-    match failing with
-    | [] => 0%N
-    | _ => if forallb (fun a => negb (N.eqb (snd a) 0)) failing
-           then fold_left (fun m a => if N.eqb m 0 then snd a else N.min m (snd a)) failing 0%N
-           else 0%N
-    end.
+  Definition holds9 : bool := forallb (fun b => b) atoms.
 End INST9.
 
 Definition mismatch_C09 (c : case_C09) : bool := mismatch9 c.
 Definition violation_C09 (c : case_C09) : bool := negb (holds9 c).
 
-Fixpoint known_aux9 (cs : list case_C09) (i : N) : list N :=
-  match cs with
-  | [] => []
-  | c :: r =>
-      let t := known_tag9 c in
-      if N.eqb t 0 then known_aux9 r (N.succ i) else (i * 100 + t)%N :: known_aux9 r (N.succ i)
-  end.
-
 Definition mismatches_C09 (cs : list case_C09) : list N := indices_where mismatch_C09 cs.
 Definition violations_C09 (cs : list case_C09) : list N := indices_where violation_C09 cs.
-Definition known_C09 (cs : list case_C09) : list N := known_aux9 cs 0%N.
